@@ -59,9 +59,13 @@ def main():
 
     # --- binding self-test: corrupted predictions must be reported by the harness ---------------------
     st = vlib.harness_results(ck, vlib.run([binp, "selftest"], check=False))
+    selftest_failed = None
     if (st["a"], st["b"], st["c"], st["d"]) != ("PassThroughIsIdentity", "HtmlGetsExactlyOneScript", "HtmlGetsExactlyOneScript", ""):
-        raise vlib.InfraError("binding self-test failed: %r" % st)
-    ck.set("binding_selftest", "3 corrupted predictions reported, the uncorrupted twin accepted")
+        # the self-test goes through the real proxy: if the tree itself breaks the property the uncorrupted twin fails
+        # too. Only a self-test failure on a tree where the replay finds nothing is a machinery problem.
+        selftest_failed = st
+    else:
+        ck.set("binding_selftest", "3 corrupted predictions reported, the uncorrupted twin accepted")
 
     # --- GEN: every configuration, end to end --------------------------------------------------------
     gen = vlib.tlc("Proxy", "g.cfg", files={"g.cfg": cfg_with("Proxy_gen.cfg", UnsupportedRule='"%s"' % rule)},
@@ -104,6 +108,8 @@ def main():
     ck.assume("Content-Type and Content-Encoding tokens are lower-case as servers send them; one Content-Security-Policy header line")
     ck.assume("a client that sends no Accept-Encoding gets Go's transport-level transparent gunzip: pass-through is then judged on the decoded bytes")
     ck.assume("DOM equality is judged by golang.org/x/net/html (the parser the proxy itself uses)")
+    if selftest_failed is not None and ck._nviol == 0:
+        raise vlib.InfraError("binding self-test failed: %r" % selftest_failed)
     ck.finish()
 
 
